@@ -1,9 +1,12 @@
 (* C05 — Overlap detection answers exactly whether two voxel sets intersect.
-   Only statements, `exact` proofs and Print Assumptions live here. Models and proofs: theories/Overlap.v (detector functions),
+   Only statements, `exact` proofs and Print Assumptions live here (plus non-vacuity `Example`s, evaluated by vm_compute/lia). Every theorem is about
+   the hand-written executable MODELS of the Go functions; the models are tied to the Go text by the differential runs and, for the integer kernels,
+   by the regeneration block at the end of this file. Models and proofs: theories/Overlap.v (detector functions),
    theories/Radix.v (the third-party radix tree as the detector observes it), theories/Digits.v (its branch digits).
    Vocabulary: `overlaps i j` (Ids.v) = on the horizontal axes and on the vertical axis the index at the coarser zoom is the floor-ancestor of
    the index at the finer zoom (ancestor-or-equal on both axes); `inR i p` (Voxel.v) = the point p lies in the half-open box of voxel i. *)
 From Coq Require Import ZArith String List Bool Lia Reals.
+From Flocq Require Import Core.
 From SID Require Import Base Str Ids Voxel ZoomCore AltKeyCore ChangeZoom Radix Digits Overlap DC05.
 Import ListNotations.
 Open Scope Z_scope.
@@ -111,15 +114,22 @@ Print Assumptions C05_radix_tree_is_ancestor_relation.
 
 (* ---- spatial-ID form (CheckSpatialIdsOverlap / ...ArrayOverlap) ---- *)
 
-(* the offset conversion, exactly: for every zoom 0..63 and EVERY index, inside the altitude domain (zoom >= 1 and -2^(z-1) <= f < 2^(z-1),
-   i.e. -2^24 m <= altitude < 2^24 m) the index moved by 2^(z-1); outside (zoom 0 included) an error *)
-Theorem C05_offset_conversion_exact : forall z f, 0 <= z <= 63 ->
-  fkey f z = if altdomb z f then Ok (f + 2 ^ (z - 1)) else Err.
+(* the offset conversion, exactly — for EVERY zoom and EVERY index: zoom within 0..35 (the zoom check of ConvertZToMinMaxAltitudekey) and
+   inside the altitude domain (zoom >= 1 and -2^(z-1) <= f < 2^(z-1), i.e. -2^24 m <= altitude < 2^24 m): the index moved by 2^(z-1);
+   otherwise an error (zoom 0, zooms 36.., negative zooms, indices beyond the domain) *)
+Theorem C05_offset_conversion_exact : forall z f,
+  fkey f z = if zoom_ok z && altdomb z f then Ok (f + 2 ^ (z - 1)) else Err.
 Proof. exact fkey_exact. Qed.
 Print Assumptions C05_offset_conversion_exact.
+Theorem C05_offset_conversion_error_iff : forall z f, fkey f z = Err <-> ~ (0 <= z <= 35 /\ altdom z f).
+Proof. exact fkey_err_iff. Qed.
+Print Assumptions C05_offset_conversion_error_iff.
 Theorem C05_zoom0_is_outside_the_altitude_domain : forall f, fkey f 0 = Err.
 Proof. exact fkey_zoom0. Qed.
 Print Assumptions C05_zoom0_is_outside_the_altitude_domain.
+Theorem C05_zoom_outside_0_35_is_refused : forall z f, z < 0 \/ 35 < z -> fkey f z = Err.
+Proof. exact fkey_bad_zoom. Qed.
+Print Assumptions C05_zoom_outside_0_35_is_refused.
 
 (* on the documented domain (sdom: zoom 1..35, x, y in range, altitude within +-2^24 m): never an error, = disjunction over all pairs *)
 Theorem C05_spatial_array_is_exists_pair : forall l1 l2 e1 e2,
@@ -132,6 +142,14 @@ Theorem C05_spatial_pair_is_the_ancestor_relation : forall a b i j,
   parse_sid a = Some i -> parse_sid b = Some j -> sdom i -> sdom j -> sp_overlap a b = Ok (overlapsb i j).
 Proof. exact sp_overlap_spec. Qed.
 Print Assumptions C05_spatial_pair_is_the_ancestor_relation.
+(* ... = disjunction of the pairwise FUNCTION over all pairs, and always an answer (mirror of the extended theorem) *)
+Theorem C05_spatial_array_is_disjunction_of_pairwise : forall l1 l2 e1 e2,
+  map_opt parse_sid l1 = Some e1 -> map_opt parse_sid l2 = Some e2 ->
+  (forall i, In i e1 -> sdom i) -> (forall j, In j e2 -> sdom j) ->
+  (sp_array l1 l2 = Ok true <-> exists a b, In a l1 /\ In b l2 /\ sp_overlap a b = Ok true) /\
+  (sp_array l1 l2 = Ok true \/ sp_array l1 l2 = Ok false).
+Proof. exact sp_array_pairwise. Qed.
+Print Assumptions C05_spatial_array_is_disjunction_of_pairwise.
 Theorem C05_spatial_array_symmetric : forall l1 l2 e1 e2, map_opt parse_sid l1 = Some e1 -> map_opt parse_sid l2 = Some e2 ->
   (forall i, In i e1 -> sdom i) -> (forall j, In j e2 -> sdom j) -> sp_array l1 l2 = sp_array l2 l1.
 Proof. exact sp_array_sym. Qed.
@@ -154,15 +172,15 @@ Theorem C05_both_implementations_agree : forall l1 l2 e1 e2,
 Proof. exact sp_equals_ext. Qed.
 Print Assumptions C05_both_implementations_agree.
 
-(* outside the altitude domain: exactly when the pairwise form fails (both IDs well-formed, zooms 0..63) *)
+(* exactly when the pairwise form fails on two well-formed IDs: one of them is outside the conversion's domain
+   (convdom i := 0 <= zoom <= 35 /\ altdom zoom f, i.e. zoom 1..35 and altitude within +-2^24 m) *)
 Theorem C05_spatial_pair_error_exactly_outside_altitude_domain : forall a b i j,
-  parse_sid a = Some i -> parse_sid b = Some j -> 0 <= eh i <= 63 -> 0 <= eh j <= 63 ->
-  sp_overlap a b = Err <-> ~ altdom (eh i) (ef i) \/ ~ altdom (eh j) (ef j).
+  parse_sid a = Some i -> parse_sid b = Some j -> sp_overlap a b = Err <-> ~ convdom i \/ ~ convdom j.
 Proof. exact sp_overlap_error_iff. Qed.
 Print Assumptions C05_spatial_pair_error_exactly_outside_altitude_domain.
 (* the first list is always examined completely: a malformed or out-of-domain member anywhere in it is an error *)
 Theorem C05_spatial_array_first_list_error : forall l1 l2 s, In s l1 ->
-  (parse_sid s = None \/ exists i, parse_sid s = Some i /\ 0 <= eh i <= 63 /\ ~ altdom (eh i) (ef i)) -> sp_array l1 l2 = Err.
+  (parse_sid s = None \/ exists i, parse_sid s = Some i /\ ~ (0 <= eh i <= 35 /\ altdom (eh i) (ef i))) -> sp_array l1 l2 = Err.
 Proof. exact sp_array_first_list_error. Qed.
 Print Assumptions C05_spatial_array_first_list_error.
 Theorem C05_spatial_pair_rejects_malformed : forall a b, parse_sid a = None \/ parse_sid b = None -> sp_overlap a b = Err.
@@ -174,12 +192,28 @@ Theorem C05_getSpatialIdAttrs_error_iff : forall s, sid_attrs s = Err <->
 Proof. exact sid_attrs_spec. Qed.
 Print Assumptions C05_getSpatialIdAttrs_error_iff.
 
-(* ---- region reading ---- *)
-(* the reference answer is true exactly when a voxel of the first list and a voxel of the second share a point *)
+(* ---- region reading ("share interior volume") ---- *)
+(* Regions are the half-open boxes of Voxel.inR in normalised coordinates (u = longitude fraction, w = Mercator fraction, a = altitude / 2^25 m;
+   the maps to degrees / metres are monotone bijections per axis and are not part of this statement).
+   (1) the reference answer is true exactly when a voxel of the first list and a voxel of the second share a point of their boxes; *)
 Theorem C05_related_iff_regions_share_a_point : forall e1 e2, (forall i, In i e1 -> valid i) -> (forall j, In j e2 -> valid j) ->
   existsb (fun i => existsb (overlapsb i) e2) e1 = true <-> exists i j p, In i e1 /\ In j e2 /\ inR i p /\ inR j p.
 Proof. exact overlap_region. Qed.
 Print Assumptions C05_related_iff_regions_share_a_point.
+(* (2) for two related voxels the common part of the boxes is itself a voxel box — that of the per-axis finer indices; *)
+Theorem C05_related_boxes_intersect_in_a_voxel_box : forall i j, 0 <= eh i -> 0 <= ev i -> 0 <= eh j -> 0 <= ev j -> overlaps i j ->
+  forall p, inR (finer i j) p <-> inR i p /\ inR j p.
+Proof. exact related_boxes_intersect_in_a_box. Qed.
+Print Assumptions C05_related_boxes_intersect_in_a_voxel_box.
+(* (3) and every voxel box has interior (hence positive volume): all points within a quarter cell of its centre, on each axis, are inside.
+   (1)-(3): related <-> the boxes share a point <-> they share a box with non-empty interior; unrelated <-> the boxes are disjoint. *)
+Theorem C05_voxel_box_has_interior : forall o, 0 <= eh o -> 0 <= ev o ->
+  forall du dw da : R,
+    (Rabs du <= bpow radix2 (- eh o - 2))%R -> (Rabs dw <= bpow radix2 (- eh o - 2))%R -> (Rabs da <= bpow radix2 (- ev o - 2))%R ->
+    inR o (((IZR (ex o) + / 2) * bpow radix2 (- eh o) + du)%R, ((IZR (ey o) + / 2) * bpow radix2 (- eh o) + dw)%R,
+           ((IZR (ef o) + / 2) * bpow radix2 (- ev o) + da)%R).
+Proof. exact voxel_box_has_interior. Qed.
+Print Assumptions C05_voxel_box_has_interior.
 
 (* ---- the run-time checker ---- *)
 Theorem C05_checker_sound : forall e1 e2 obs, check_overlap e1 e2 obs = true <->
@@ -194,9 +228,29 @@ Theorem C05_dispatch_checker_is_the_specification_spatial : forall l1 l2 e1 e2 o
   forallb sdomb e1 = true -> forallb sdomb e2 = true -> (chk_sp l1 l2 obs = true <-> spec_overlap e1 e2 obs).
 Proof. exact chk_sp_is_spec. Qed.
 Print Assumptions C05_dispatch_checker_is_the_specification_spatial.
+(* inputs with members outside the quantifier: the dispatch checker is then the per-member fallback — `false` without error implies that no two
+   in-quantifier members are related, `true` implies two non-empty lists *)
+Theorem C05_fallback_checker_sound : forall v1 v2 n1 n2 obs, check_fallback v1 v2 n1 n2 obs = true <->
+  (obs = Ok false -> ~ exists i j, In i v1 /\ In j v2 /\ overlaps i j) /\ (obs = Ok true -> n1 = true /\ n2 = true).
+Proof. exact check_fallback_sound. Qed.
+Print Assumptions C05_fallback_checker_sound.
+Theorem C05_dispatch_checker_on_any_input_ext : forall l1 l2 obs, chk_ext l1 l2 obs = true ->
+  (exists e1 e2, parse_all l1 = Some e1 /\ parse_all l2 = Some e2 /\ forallb validb e1 = true /\ forallb validb e2 = true /\ spec_overlap e1 e2 obs) \/
+  spec_fallback (vmem l1) (vmem l2) (nonnil l1) (nonnil l2) obs.
+Proof. exact chk_ext_otherwise. Qed.
+Print Assumptions C05_dispatch_checker_on_any_input_ext.
+Theorem C05_dispatch_checker_on_any_input_spatial : forall l1 l2 obs, chk_sp l1 l2 obs = true ->
+  (exists e1 e2, map_opt parse_sid l1 = Some e1 /\ map_opt parse_sid l2 = Some e2 /\ forallb sdomb e1 = true /\ forallb sdomb e2 = true /\ spec_overlap e1 e2 obs) \/
+  spec_fallback (smem l1) (smem l2) (nonnil l1) (nonnil l2) obs.
+Proof. exact chk_sp_otherwise. Qed.
+Print Assumptions C05_dispatch_checker_on_any_input_spatial.
+(* no false alarm: on EVERY input (inside or outside the quantifier) the models' own answers pass the dispatch checkers *)
 Theorem C05_models_pass_checker : forall l1 l2, chk_ext l1 l2 (ext_array l1 l2) = true /\ chk_sp l1 l2 (sp_array l1 l2) = true.
 Proof. exact (fun l1 l2 => conj (model_passes_ext l1 l2) (model_passes_sp l1 l2)). Qed.
 Print Assumptions C05_models_pass_checker.
+Theorem C05_tree_model_passes_checker : forall K Q, tree_prop K Q (tree_model K Q) = true.
+Proof. exact model_passes_tree. Qed.
+Print Assumptions C05_tree_model_passes_checker.
 
 (* ---- non-vacuity, and the inputs on which the independently seeded changes differ from the code ---- *)
 Example C05_ex_domain : sdom (mk 26 0 0 26 (-5)) /\ valid (mk 3 7 0 4 (-16)) /\ altdom 35 (- 2 ^ 34) /\ ~ altdom 3 4.
@@ -213,5 +267,33 @@ Example C05_ex_child_before_parent :   (* the parent follows its own descendant 
   sp_array ["16/0/58198/25804"; "13/0/7274/3225"] ["16/0/58199/25804"] = Ok true /\
   sp_array ["16/-3/58199/25805"; "13/-1/7274/3225"] ["16/-8/58192/25800"] = Ok true /\
   sp_array ["26/0/0/0"] ["26/1/0/0"] = Ok false /\ sp_array [] ["3/0/0/0"] = Ok false /\
-  sp_overlap "0/0/0/0" "0/0/0/0" = Err /\ sp_overlap "3/4/0/0" "3/3/0/0" = Err /\ sp_overlap "1/b/0/0" "1/0/0/0" = Err.
+  sp_overlap "0/0/0/0" "0/0/0/0" = Err /\ sp_overlap "3/4/0/0" "3/3/0/0" = Err /\ sp_overlap "1/b/0/0" "1/0/0/0" = Err /\
+  sp_overlap "36/0/0/0" "36/0/0/0" = Err /\ sp_overlap "63/0/0/0" "1/0/0/0" = Err /\ sp_overlap "1/0/0/0" "-1/0/0/0" = Err /\
+  sp_overlap "-9223372036854775808/0/0/0" "1/0/0/0" = Err.
 Proof. vm_compute. repeat split. Qed.
+
+Close Scope string_scope.
+(* ---- tie to the source by regeneration (DESIGN.md 4.2): the integer kernels the detector stands on, translated from /repo's current source on
+   every run (generated/Generated.v), are the models the theorems above are stated on. The detector's own control flow (min of the zooms, `[0]`
+   comparison, the two tree loops) is NOT regenerated: it is tied by the differential runs only. ---- *)
+From SIDGen Require Generated.
+From SID Require GenTac GenEqZoom GenEqAlt GenEqCheck.
+Theorem C05_generated_VerticalZoom_bounds_are_the_model : forall zin f zout,
+  Generated.VerticalZoom_minmax zin f zout = ZoomCore.vzoom_minmax zin f zout.
+Proof. exact GenEqZoom.gen_VerticalZoom_minmax_eq. Qed.
+Print Assumptions C05_generated_VerticalZoom_bounds_are_the_model.
+Theorem C05_generated_HorizontalZoomMinMax_is_the_model : forall zin x y zout,
+  Generated.HorizontalZoomMinMax zin x y zout = ZoomCore.hzoom_minmax zin x y zout.
+Proof. exact GenEqZoom.gen_HorizontalZoomMinMax_eq. Qed.
+Print Assumptions C05_generated_HorizontalZoomMinMax_is_the_model.
+Theorem C05_generated_CheckZoom_is_the_model : forall z, Generated.CheckZoom z = Ids.check_zoom z.
+Proof. exact GenEqCheck.gen_CheckZoom_eq. Qed.
+Print Assumptions C05_generated_CheckZoom_is_the_model.
+Theorem C05_generated_ConvertZToMinMaxAltitudekey_is_the_model : forall f z out E O,
+  Generated.ConvertZToMinMaxAltitudekey f z out E O = GenTac.enc_zz (AltKeyCore.z2key f z out E O).
+Proof. exact GenEqAlt.gen_ConvertZToMinMaxAltitudekey_eq. Qed.
+Print Assumptions C05_generated_ConvertZToMinMaxAltitudekey_is_the_model.
+Theorem C05_generated_offset_constants : Generated.ZBaseOffsetForNegativeFIndex = 2 ^ 24 /\
+  Generated.ZBaseOffsetForNegativeFIndex = AltKeyCore.zbase_offset_neg /\ Generated.ZOriginValue = AltKeyCore.zorigin.
+Proof. exact (conj GenEqAlt.gen_ZBaseOffsetForNegativeFIndex_val (conj GenEqAlt.gen_ZBaseOffsetForNegativeFIndex_eq GenEqAlt.gen_ZOriginValue_eq)). Qed.
+Print Assumptions C05_generated_offset_constants.
